@@ -618,3 +618,23 @@ func init() {
 		return nil
 	})
 }
+
+func init() {
+	regV("Yield", func(g *G, a []Value) Value {
+		// park behind everything currently runnable (free of charge: it is harness code asking for it)
+		r := g.run
+		target := r.visibleOps + 1
+		g.schedPoint(&Op{desc: "yield", waitStep: true, enabled: func() bool {
+			if r.visibleOps > target+8 {
+				return true
+			}
+			for _, x := range r.gs {
+				if x != g && !x.done && x.op != nil && !x.op.waitStep && !x.op.isQuiesce && (x.op.completed || x.op.enabled()) {
+					return false
+				}
+			}
+			return true
+		}})
+		return nil
+	})
+}
